@@ -9,8 +9,9 @@ package main
 // original (simultaneous walk from both roots building a bijection between object identities).
 // Correspondence: for every graph the harness records what go-duplicates answered, the events the
 // iterator delivered and the graphs Unmarshal returned; Model/Graph.v (graph_case_ok) recomputes all
-// of them. A second family plays event streams with forward references, missing and repeated
-// markers straight into validator + builder.
+// of them and checks the statement of the round-trip theorem on the library's own answers. A second
+// family plays event streams with forward references, missing and repeated markers straight into
+// validator + builder.
 
 import (
 	"encoding/json"
@@ -1090,20 +1091,20 @@ func c20Boundary() []*c20Graph {
 		return n
 	}
 	gs := []*c20Graph{
-		{Nodes: []c20Node{s(1)}},                                       // one object
-		{Nodes: []c20Node{s(2, 0)}},                                    // self loop
-		{Nodes: []c20Node{s(2, 0, 0, 0)}},                              // three self loops
-		{Nodes: []c20Node{s(3, 1), s(4, -1, 0)}},                       // cycle of two
-		{Nodes: []c20Node{s(1, 1, 1, 1), s(7)}},                        // one leaf, three times
-		{Nodes: []c20Node{s(1, 1, 2), s(7), s(7)}},                     // equal but distinct leaves
-		{Nodes: []c20Node{s(1, -1, -1, -1, 1), sl(2, 2, -1, 2), s(9)}}, // slice holding one pointer three times
-		{Nodes: []c20Node{s(1, -1, -1, -1, 1), sl(0)}},                 // cycle through a slice
-		{Nodes: []c20Node{s(1, -1, -1, -1, -1, 1), mp(5, 0, -1, -1)}},  // cycle through a map
-		{Nodes: []c20Node{s(1, 1, -1, -1, 2), s(2, -1, -1, -1, 2), sl(3, -1), s(5)}},        // shared slice
+		{Nodes: []c20Node{s(1)}},                                                                  // one object
+		{Nodes: []c20Node{s(2, 0)}},                                                               // self loop
+		{Nodes: []c20Node{s(2, 0, 0, 0)}},                                                         // three self loops
+		{Nodes: []c20Node{s(3, 1), s(4, -1, 0)}},                                                  // cycle of two
+		{Nodes: []c20Node{s(1, 1, 1, 1), s(7)}},                                                   // one leaf, three times
+		{Nodes: []c20Node{s(1, 1, 2), s(7), s(7)}},                                                // equal but distinct leaves
+		{Nodes: []c20Node{s(1, -1, -1, -1, 1), sl(2, 2, -1, 2), s(9)}},                            // slice holding one pointer three times
+		{Nodes: []c20Node{s(1, -1, -1, -1, 1), sl(0)}},                                            // cycle through a slice
+		{Nodes: []c20Node{s(1, -1, -1, -1, -1, 1), mp(5, 0, -1, -1)}},                             // cycle through a map
+		{Nodes: []c20Node{s(1, 1, -1, -1, 2), s(2, -1, -1, -1, 2), sl(3, -1), s(5)}},              // shared slice
 		{Nodes: []c20Node{s(1, 1, -1, -1, -1, 2), s(2, -1, -1, -1, -1, 2), mp(1, 3, 2, 3), s(5)}}, // shared map whose values are one leaf
-		{Nodes: []c20Node{s(1, 1, 1), s(2, 2, 2), s(3)}},               // marker inside a marked object
-		{Nodes: []c20Node{s(1, 1, 1, 0), s(7)}},                        // marked root holding a shared leaf
-		{Nodes: []c20Node{s(1, 1, 2), s(2, 3), s(3, 3), s(4)}},         // shared leaf reached through two unshared objects
+		{Nodes: []c20Node{s(1, 1, 1), s(2, 2, 2), s(3)}},                                          // marker inside a marked object
+		{Nodes: []c20Node{s(1, 1, 1, 0), s(7)}},                                                   // marked root holding a shared leaf
+		{Nodes: []c20Node{s(1, 1, 2), s(2, 3), s(3, 3), s(4)}},                                    // shared leaf reached through two unshared objects
 	}
 	// a chain of 12 closed into a ring
 	ring := &c20Graph{}
@@ -1138,6 +1139,13 @@ func c20Record(c *Ctx, cf *caseFile, stream string, g *c20Graph, k c20Cfg) c20Ou
 	c.Dist(fmt.Sprintf("nodes/%02d", len(g.Nodes)))
 	c.Dist(fmt.Sprintf("marked-objects/%d", o.dups))
 	c.Dist(fmt.Sprintf("marker-inside-marked/%v", o.nested))
+	cyclic := false
+	for j := range g.Nodes {
+		if g.reaches2(j) {
+			cyclic = true
+		}
+	}
+	c.Dist(fmt.Sprintf("cyclic/%v", cyclic))
 	kinds := [3]int{}
 	for _, n := range g.Nodes {
 		kinds[n.Kind]++
@@ -1159,7 +1167,7 @@ func c20Record(c *Ctx, cf *caseFile, stream string, g *c20Graph, k c20Cfg) c20Ou
 }
 
 func runC20(c *Ctx) {
-	c.Rep.Rule = "graphs over type N{V int; A,B,C *N; S []*N; M map[int]*N}: random tree of 1..12 nodes plus 0..4 extra edges (shared / back edges), each run through CBE and CTE; streams: main (no marker inside a marked object, rules on), nested (marker inside a marked object; rules on = known defect, rules off), omit-never, empty containers, slice prefixes, boundary shapes; event streams with forward references / missing / repeated markers played into validator+builder; non-trivial = more than one object; distinct = distinct (configuration, graph) or stream"
+	c.Rep.Rule = "graphs over type N{V int; A,B,C *N; S []*N; M map[int]*N}: random tree of 1..12 nodes plus 0..4 extra edges (shared / back edges), each run through CBE and CTE; streams: main (shared objects inside shared objects and cycles through shared objects included; rules on), rules-off, omit-never, empty containers, slice prefixes, boundary shapes; event streams with forward references / missing / repeated markers played into validator+builder; non-trivial = more than one object; distinct = distinct (configuration, graph) or stream"
 	cf := c.Cases("graph", "CE.Model.Graph", "graph_case", "graph_case_ok")
 	cf.perFile = 150
 
@@ -1188,19 +1196,13 @@ func runC20(c *Ctx) {
 		c20Record(c, cf, "boundary", g, c20Cfg{Rules: true})
 		c20Record(c, cf, "boundary", g, c20Cfg{Rules: false})
 	}
-	// main stream
-	for i := 0; i < c.Pick(260, 4000); i++ {
-		c20Record(c, cf, "main", gen(false), c20Cfg{Rules: true})
+	// main stream: any sharing, any cycles; half of the graphs are asked to have a marker inside a marked object
+	for i := 0; i < c.Pick(330, 2000); i++ {
+		c20Record(c, cf, "main", gen(i%2 == 1), c20Cfg{Rules: true})
 	}
-	// marker inside a marked object
-	for i := 0; i < c.Pick(25, 300); i++ {
-		c20Record(c, cf, "nested-rules-on", gen(true), c20Cfg{Rules: true})
-	}
-	for i := 0; i < c.Pick(80, 1500); i++ {
-		c20Record(c, cf, "nested-rules-off", gen(true), c20Cfg{Rules: false})
-	}
-	for i := 0; i < c.Pick(40, 500); i++ {
-		c20Record(c, cf, "any-rules-off", gen(false), c20Cfg{Rules: false})
+	// the same with the validator switched off
+	for i := 0; i < c.Pick(90, 600); i++ {
+		c20Record(c, cf, "rules-off", gen(i%2 == 1), c20Cfg{Rules: false})
 	}
 	// omit-never: nil fields are written as null
 	for i := 0; i < c.Pick(12, 150); i++ {
@@ -1243,6 +1245,7 @@ func runC20(c *Ctx) {
 	}
 
 	c20SlicePrefixes(c)
+	c20PointerToPointer(c)
 	c20Streams(c, cf)
 }
 
@@ -1293,6 +1296,89 @@ func c20SlicePrefixOracle(n, cut int, prefixFirst bool, format string) (bool, st
 	return true, ""
 }
 
+// a shared pointer to a shared pointer: outside the model's Go type (no **N there); oracle only
+type c20PP struct {
+	P *c20N
+	X **c20N
+	Y **c20N
+}
+
+func c20PointerToPointerOracle(format string, rules bool) (bool, string) {
+	ok, why := c20PPRoundTrip(format, rules, true)
+	if !ok {
+		// control: the same type with nothing shared
+		if okc, whyc := c20PPRoundTrip(format, rules, false); !okc {
+			why += " [control: a **N field holding an unshared pointer does not come back either: " + whyc + "]"
+		}
+	}
+	return ok, why
+}
+
+func c20PPRoundTrip(format string, rules bool, shared bool) (bool, string) {
+	leaf := &c20N{V: 7}
+	pp := &leaf
+	root := &c20PP{P: leaf, X: pp, Y: pp}
+	if !shared {
+		other := &c20N{V: 7}
+		root = &c20PP{P: &c20N{V: 7}, X: pp, Y: &other}
+	}
+	cfg := c20Cfg{Rules: rules}.config()
+	var doc []byte
+	var err error
+	st, msg := c20Watch(func() {
+		if format == "cbe" {
+			doc, err = ce.MarshalToCBEDocument(root, cfg)
+		} else {
+			doc, err = ce.MarshalToCTEDocument(root, cfg)
+		}
+	})
+	if st != "ok" || err != nil {
+		return false, fmt.Sprintf("marshal: %s %s %v", st, msg, err)
+	}
+	var v interface{}
+	st, msg = c20Watch(func() {
+		if format == "cbe" {
+			v, err = ce.UnmarshalFromCBEDocument(doc, (*c20PP)(nil), cfg)
+		} else {
+			v, err = ce.UnmarshalFromCTEDocument(doc, (*c20PP)(nil), cfg)
+		}
+	})
+	if st != "ok" || err != nil {
+		return false, fmt.Sprintf("unmarshal: %s %s %v", st, msg, err)
+	}
+	res, ok := v.(*c20PP)
+	if !ok || res == nil || res.P == nil || res.X == nil || res.Y == nil || *res.X == nil {
+		return false, "objects missing"
+	}
+	if shared && res.X != res.Y {
+		return false, "the shared pointer-to-pointer came back as two objects"
+	}
+	if shared && *res.X != res.P {
+		return false, "the pointer behind the shared pointer is no longer the shared leaf"
+	}
+	if !shared && (res.X == res.Y || *res.X == res.P || *res.Y == nil || *res.X == *res.Y) {
+		return false, "objects that were distinct came back shared"
+	}
+	if res.P.V != 7 || (*res.X).V != 7 {
+		return false, "payload changed"
+	}
+	return true, ""
+}
+
+func c20PointerToPointer(c *Ctx) {
+	for _, format := range []string{"cbe", "cte"} {
+		for _, rules := range []bool{true, false} {
+			ok, why := c20PointerToPointerOracle(format, rules)
+			c.Count(fmt.Sprintf("pp|%s|%v", format, rules), true)
+			c.Dist("stream/pointer-to-shared-pointer")
+			if !ok {
+				c.Fail(Replay{Kind: "pointer-to-pointer", Key: "C20/pointer-to-shared-pointer", Input: map[string]string{"format": format, "rules": fmt.Sprint(rules)},
+					Expect: "X and Y share one pointer whose target is the shared leaf", Got: why})
+			}
+		}
+	}
+}
+
 // event streams played into validator + builder
 func c20Streams(c *Ctx, cf *caseFile) {
 	add := func(kind string, g *c20Graph, es []Ev, withRules bool, expectIso bool) {
@@ -1315,7 +1401,7 @@ func c20Streams(c *Ctx, cf *caseFile) {
 			}
 		}
 	}
-	for i := 0; i < c.Pick(60, 800); i++ {
+	for i := 0; i < c.Pick(60, 400); i++ {
 		g := c20Random(c.Rng, 1+c.Rng.Intn(10), 1+c.Rng.Intn(4), 40)
 		m := g.materialize()
 		dups := m.dups(g)
@@ -1426,6 +1512,8 @@ func replayC20(r *Replay) (bool, string) {
 		}
 		ok, why := c20SlicePrefixOracle(n, cut, r.Input["prefix_first"] == "true", r.Input["format"])
 		return ok, why
+	case "pointer-to-pointer":
+		return c20PointerToPointerOracle(r.Input["format"], r.Input["rules"] == "true")
 	case "stream":
 		es, err := parseEvs(r.Input["events"])
 		if err != nil {
